@@ -93,7 +93,7 @@ PROPS["C15"] = dict(
 
 PROPS["C03"] = dict(
     modules=["Sth.Props.C01", "Sth.Props.C08", "Sth.Props.C03"],
-    theorems=list(CORE_RL) + ['Sth.C03_flush_crash_recovers', 'Sth.C03_flush_crash_against_map', 'Sth.C03_removed_flushed_stays_absent', 'Sth.C03_flushed_unchanged_survives', 'Sth.C03_lastDurable_spec', 'Sth.C03_image_zero', 'Sth.C03_image_full'],
+    theorems=list(CORE_RL) + ['Sth.C03_flush_crash_recovers', 'Sth.C03_flush_crash_against_map', 'Sth.C03_removed_flushed_stays_absent', 'Sth.C03_flushed_unchanged_survives', 'Sth.C03_lastDurable_spec', 'Sth.C03_image_zero', 'Sth.C03_image_full', 'Sth.C03_recovered_store_keeps_working_partial'],
     runs=[dict(engine="crash", quick=48, thorough=2000, nontrivial=["torn", "at:index", "at:primary", "at:freelist", "at:store", "flush-image-interior"])],
     shrink_budget=0,   # the workload is the context of the crash oracle (baseline, acknowledged since): it is kept whole
     crash_lines=True,
@@ -176,13 +176,20 @@ PROPS["C13"] = dict(
 PROPS["C11"] = dict(
     modules=["Sth.Props.C01", "Sth.Props.C08"],
     theorems=list(CORE_RL),
-    runs=[dict(engine="seq", quick=200, thorough=10000, extra=["-profile", "c11"], nontrivial=["c11-dead-primary-files", "c11-unreferenced-index-files"])],
+    runs=[dict(engine="seq", quick=200, thorough=10000, extra=["-profile", "c11"], nontrivial=["c11-dead-primary-files", "c11-unreferenced-index-files"]),
+          dict(engine="crash", quick=48, thorough=1500, nontrivial=["c11-drain-after-recovery"])],
+    crash_lines=True,
+    own_oracle_only_engines=["crash"],
     rule="fixed-shape histories: fill several small files, remove or overwrite all (or all but 1-2) keys, flush, roll the files out of "
          "current position, then 7 rounds of (primary GC, flush, index GC); from the REAL store's views at the mark the driver computes "
          "which non-current primary files hold no live location and which non-current index files no bucket points into, and checks they "
          "are truncated to zero or unlinked within 2 cycles, that no cycle increases the reported storage (measured at flushed states), "
-         "and that the last two rounds leave byte-identical directories (fixed point); all views are compared with the model. "
-         "Non-trivial = distinct history with at least one dead primary file or unreferenced index file at the mark.",
+         "and that the last two rounds leave byte-identical directories (fixed point); all views are compared with the model. Second run: "
+         "every crash image taken at a hook point of C03's workloads is recovered by the real code, every key is removed, the files are "
+         "left behind and eight cycles of both collectors run (low-use threshold 50); no non-current primary file may then be left "
+         "without a record in use or with a free share at or above the threshold - records that no index entry ever named (crash "
+         "between the primary's and the index's flush) must be found unreferenced by relocation and freed. "
+         "Non-trivial = distinct history with at least one dead primary file or unreferenced index file at the mark / a drained recovery.",
     assumptions=["cycles are invoked synchronously (the timers that start them are not modelled)",
                  "no-growth is measured at flushed states: the repaired collector flushes the primary before applying the freelist"],
 )
